@@ -4,8 +4,20 @@ goroutines inside dial; Quartet: Close vs the reader's conn.Close/reconnecting v
 -/
 import OAP.Model.Client.CloseSlice
 import OAP.Model.Client.Quartet
+import OAP.Gen.Facts
 namespace OAP.C14
 open OAP
+
+/-- T2 structure facts, regenerated from go/client on every run (the operations themselves, in source order): Close = once { signal; read-lock; close conn; unlock; callback }; dial checks the signal under the write lock before dialling; closing a conn closes only its close signal and socket (never the data channels); the transports' write is closed-check then non-blocking send -/
+theorem source_order :
+    Gen.seq_client_Close = ["c.closeOnce.Do", "close:c.closeCh", "c.RLock", "c.conn.Close", "c.RUnlock", "c.onClose"] ∧
+    Gen.seq_client_dial = ["c.Lock", "defer:c.Unlock", "c.closed", "dialer", "conn.OnPacket", "conn.OnClose"] ∧
+    Gen.seq_tcpConn_Close = ["conn.closed", "conn.closeOnce.Do", "close:conn.closeCh", "conn.conn.Close", "conn.DispatchClose"] ∧
+    Gen.seq_wsConn_Close = ["conn.closed", "conn.closeOnce.Do", "close:conn.closeCh", "conn.conn.Close", "conn.DispatchClose"] ∧
+    Gen.seq_tcpConn_write = ["conn.closed", "select", "send:conn.writeCh", "default"] ∧
+    Gen.seq_wsConn_write = ["conn.closed", "select", "send:conn.writeCh", "default"] := by
+  decide
+
 
 /-- the close callback runs at most once in every interleaving of any number of Close callers (user, hit-max) … -/
 theorem on_close_at_most_once (acts : List CloseSlice.Act) (s : CloseSlice.St)
